@@ -9,10 +9,11 @@ Open Scope N_scope.
 (* --- what the driver did and saw --------------------------------------------------------- *)
 Inductive wop :=
   | WMsg (inner : option bytes)                 (* WriteMsg(m); inner = proto.Marshal(m), None = it failed *)
-  | WHdr (payload : option bytes) (canon : bytes)
+  | WHdr (payload : option bytes) (canon : bytes) (entries : option (list (bytes * bytes)))
       (* WriteHeader(h); payload = proto.Marshal(Header{h}) as it appeared on the stream (map
          order is not deterministic, so it is taken from the capture); canon = deterministic
-         marshalling of the same header *)
+         marshalling of the same header; entries = the map as (key, marshalled Value) pairs in
+         any order, None when a Value's own marshalling is not deterministic (nested maps) *)
   | WStatus (s : status)                        (* WriteError(status) *)
   | WHandler (e : herr).                        (* status.FromError(err), then WriteError *)
 
@@ -115,14 +116,31 @@ Fixpoint lookup (k : bytes) (t : list (bytes * option bytes)) : option (option b
 Definition model_write (op : wop) : outcome bytes :=
   match op with
   | WMsg inner => write_msg inner
-  | WHdr payload _ => write_header payload
+  | WHdr payload _ _ => write_header payload
   | WStatus s => write_error s
   | WHandler e => write_error (status_of_herr e)
   end.
 
+(* the header payload on the stream decodes, by the map-framing model, to exactly the entries of
+   the header that was written (as a map: same size, every key with its value) *)
+Fixpoint hlookup (k : bytes) (h : list hentry) : option bytes :=
+  match h with
+  | [] => None
+  | (k', v) :: r => if bytes_eqb k k' then Some v else hlookup k r
+  end.
+Definition same_map (a b : list hentry) : bool :=
+  Nat.eqb (length a) (length b) &&
+  forallb (fun e => match hlookup (fst e) b with Some v => bytes_eqb v (snd e) | None => false end) a.
+Definition header_payload_ok (op : wop) : bool :=
+  match op with
+  | WHdr (Some p) _ (Some es) =>
+      match decode_header p with TOk h => same_map es h | _ => false end
+  | _ => true
+  end.
+
 Definition write_agrees (op : wop) (o : wobs) : bool :=
   match model_write op, o with
-  | Ok f, WOk b => bytes_eqb f b
+  | Ok f, WOk b => bytes_eqb f b && header_payload_ok op
   | Err _, WFail => true
   | _, _ => false
   end.
@@ -226,7 +244,7 @@ Definition expect_item (all_inners : list bytes) (op : wop) (o : robs) : option 
       | _ => Some "roundtrip"%string
       end
   | WMsg None => Some "roundtrip"%string          (* nothing should have been written *)
-  | WHdr _ canon =>
+  | WHdr _ canon _ =>
       match o with OHeader c => if bytes_eqb c canon then None else Some "header"%string | _ => Some "header"%string end
   | _ =>
       match status_of_wop op with
